@@ -113,7 +113,7 @@ def judge (req ans : List String) : Option Complaints :=
   | ["roundtrip", _, b], ["panic"] => do let b ← unhex b; pure (judgeFormat b none)
   | ["roundtrip", t, b], ["ok", txt, back, stable] => do
       let T ← Ty.ofName t; let b ← unhex b; let txt ← unhex txt; let back ← parsePAns back
-      pure (judgeRoundtrip T b (some txt) back (bit stable))
+      pure (judgeRoundtrip T b (some txt) back (bit stable) ++ judgeReparse T txt back)
   | ["classify", _, _], ["panic"] => some [("C05", "panic")]
   | ["classify", _, b], ["cls", bits, neg, tok] => do
       let b ← unhex b
